@@ -194,6 +194,20 @@ def run(v):
                     v.add_failure('C04.chunking_independent', {'mode': 'tcp', 'reach': 'transport'},
                                   'stream %s via TransportTCP read_buffer_size=%d: %s' % (list(lens_all[si - 1]), rbs, why),
                                   {'kind': 'c04', 'lens': list(lens_all[si - 1]), 'salt': salt + si, 'rbs': rbs})
+        # ... and through the real QUIC transport (RSocketQuicProtocol + RSocketQuicTransport over a real, unconnected QuicConnection):
+        # the stream's bytes arrive as StreamDataReceived events of any size, then the connection terminates
+        quic_bad = 0
+        for si, (data, bodies, ends, exps) in streams.items():
+            for rbs in (1, 2, 3, 7, 1024):
+                if quic_bad >= 3:
+                    break
+                why = _via_quic(data, exps, rbs)
+                replayed += 1
+                if why:
+                    quic_bad += 1
+                    v.add_failure('C04.chunking_independent', {'mode': 'quic', 'reach': 'transport'},
+                                  'stream %s via RSocketQuicTransport in events of %d bytes: %s' % (list(lens_all[si - 1]), rbs, why),
+                                  {'kind': 'c04', 'lens': list(lens_all[si - 1]), 'salt': salt + si, 'rbs': rbs, 'via': 'quic'})
         # message mode: each message yields exactly the frame it contains
         msgs = [b for (_, bodies, _, _) in streams.values() for b in bodies] + [b'', b'\x00', b'\x01\x02\x03\x04\x05']
         for body in msgs:
@@ -293,6 +307,60 @@ def _via_transport(data, exps, rbs):
     try:
         got = loop.run_until_complete(asyncio.wait_for(go(), 20))
         return compare(got, exps)
+    except Exception as ex:
+        return 'raised %s: %s' % (type(ex).__name__, ex)
+    finally:
+        loop.close()
+
+
+def _via_quic(data, exps, rbs):
+    """the byte stream cut into QUIC stream-data events of rbs bytes, through the real protocol and transport classes; afterwards one
+    frame is sent: it must leave as ONE write holding the 3-byte length prefix and the one-shot serialisation"""
+    from aioquic.quic.configuration import QuicConfiguration
+    from aioquic.quic.connection import QuicConnection
+    from aioquic.quic.events import ConnectionTerminated, StreamDataReceived
+    from rsocket.exceptions import RSocketTransportError
+    from rsocket.frame_builders import to_request_n_frame
+    from rsocket.transports.aioquic_transport import RSocketQuicProtocol, RSocketQuicTransport
+
+    async def go():
+        q = QuicConnection(configuration=QuicConfiguration(is_client=True))
+        p = RSocketQuicProtocol(q)
+        p.transmit = lambda: None           # (no datagram transport: nothing is put on a network)
+        p._connected = True
+        sent = []
+        # (aioquic's own stream adapter writes b'' on other occasions: only what goes out on the RSocket stream counts)
+        q.send_stream_data = lambda stream_id, d, end_stream=False: sent.append(bytes(d)) if stream_id == p._stream_id and d else None
+        t = RSocketQuicTransport(p)
+        for i in range(0, len(data), rbs):
+            p.quic_event_received(StreamDataReceived(data=data[i:i + rbs], end_stream=False, stream_id=0))
+        f = to_request_n_frame(7, 3)
+        await t.send_frame(f)
+        p.quic_event_received(ConnectionTerminated(error_code=0, frame_type=None, reason_phrase=''))
+        got = []
+        ended = None
+        for _ in range(len(data) + 5):
+            try:
+                g = await asyncio.wait_for(t.next_frame_generator(), 1)
+            except RSocketTransportError:
+                ended = 'error'
+                break
+            except asyncio.TimeoutError:
+                break               # (nothing more comes out: every event was handled long ago)
+            async for fr in g:
+                got.append(describe(fr))
+        t._listener.cancel()
+        body = f.serialize()
+        if sent != [len(body).to_bytes(3, 'big') + body]:
+            return got, 'a frame given to send_frame() left as %r' % (sent,)
+        if ended != 'error':
+            return got, 'the termination of the QUIC connection was not handed to the endpoint'
+        return got, None
+
+    loop = asyncio.new_event_loop()
+    try:
+        got, why = loop.run_until_complete(asyncio.wait_for(go(), 20))
+        return compare(got, exps) or why
     except Exception as ex:
         return 'raised %s: %s' % (type(ex).__name__, ex)
     finally:
